@@ -416,13 +416,18 @@ func Outcome(err error) string {
 	return "fail"
 }
 
-// RecordSet renders n records starting at base in message format `magic` (1 or 2), optionally as several batches,
-// using the protocol package's encoder (the encoders themselves are the subject of C04/C05).
-func RecordSet(r *rand.Rand, magic int8, base int64, n int, batches int, attrs protocol.Attributes) ([]byte, []Msg, error) {
+// RecordSet renders n records in message format `magic` (1 or 2), optionally as several batches, using the
+// protocol package's encoder (the encoders themselves are the subject of C04/C05).  The encoder always numbers the
+// records of a set from 0; for format 2 the base offset of each batch (outside the CRC) is patched so that the set
+// starts at `base`; a format 1 set is a single batch starting at 0.  The base actually used is returned.
+func RecordSet(r *rand.Rand, magic int8, base int64, n int, batches int, attrs protocol.Attributes) ([]byte, []Msg, int64, error) {
 	var out bytes.Buffer
 	var msgs []Msg
-	if batches < 1 {
+	if batches < 1 || magic < 2 {
 		batches = 1
+	}
+	if magic < 2 {
+		base = 0
 	}
 	off := base
 	for b := 0; b < batches; b++ {
@@ -433,6 +438,7 @@ func RecordSet(r *rand.Rand, magic int8, base int64, n int, batches int, attrs p
 		if k == 0 {
 			continue
 		}
+		start := off
 		recs := make([]protocol.Record, k)
 		for i := range recs {
 			key, val := str(r, 3), "v"+str(r, 8)
@@ -446,13 +452,24 @@ func RecordSet(r *rand.Rand, magic int8, base int64, n int, batches int, attrs p
 		rs := protocol.RecordSet{Version: magic, Attributes: attrs, Records: protocol.NewRecordReader(recs...)}
 		var buf bytes.Buffer
 		if _, err := rs.WriteTo(&buf); err != nil {
-			return nil, nil, err
+			return nil, nil, 0, err
 		}
 		bb := buf.Bytes()
-		if len(bb) < 4 {
-			return nil, nil, fmt.Errorf("short record set")
+		if len(bb) < 12 {
+			return nil, nil, 0, fmt.Errorf("short record set")
 		}
-		out.Write(bb[4:]) // WriteTo prefixes the set with its int32 size
+		bb = bb[4:] // WriteTo prefixes the set with its int32 size
+		if magic >= 2 {
+			for i := 0; i < 8; i++ {
+				bb[i] = byte(uint64(start) >> (8 * (7 - i)))
+			}
+		} else if attrs&7 != 0 {
+			// format 1, compressed: Kafka gives the wrapper message the offset of its last inner message
+			for i := 0; i < 8; i++ {
+				bb[i] = byte(uint64(off-1) >> (8 * (7 - i)))
+			}
+		}
+		out.Write(bb)
 	}
-	return out.Bytes(), msgs, nil
+	return out.Bytes(), msgs, base, nil
 }
